@@ -277,6 +277,19 @@ func runRoutesFixed(c *ctx, id string, cfg runCfg, s *gSchema, fix1, fix2 string
 				}
 			}
 			e = load(z, cfg, plain, append(p.scriptGrouped(), alters...))
+		case "reversed-options": // every column's options written in the opposite order (seeded change C03-s); a fixed
+			// route of the witness below, not drawn at random
+			p := s.clone()
+			for _, t := range p.Tables {
+				for k := range t.Cols {
+					o := append([]Opt(nil), t.Cols[k].Opts...)
+					for i, j := 0, len(o)-1; i < j; i, j = i+1, j-1 {
+						o[i], o[j] = o[j], o[i]
+					}
+					t.Cols[k].Opts = o
+				}
+			}
+			e = load(z, cfg, plain, p.scriptGrouped())
 		case "inline-keys":
 			e = guard(func() string {
 				if err := z.FromString(plain.scriptInlineKeys(s.scriptGrouped())); err != nil {
@@ -335,6 +348,16 @@ func suitePair(c *ctx) {
 			{Name: "u", Cols: []ColDef{{Name: "x", Typ: "int(11)"}}}}}
 		for i, pr := range [][2]string{{"pk-in-create-table", "grouped"}, {"grouped", "pk-in-create-table"}, {"pk-in-create-table", "own-dump"}, {"own-dump", "pk-in-create-table"}, {"per-statement", "pk-in-create-table"}} {
 			runRoutesFixed(c, fmt.Sprintf("wrtpk%d", i), runCfg{dialect: "mysql", lower: i%2 == 0}, kws, pr[0], pr[1])
+		}
+		// C03-s: columns with several expression-carrying options (DEFAULT, COMMENT), the options written in either order
+		ows := &gSchema{Tables: []*gTable{
+			{Name: "ticket", Cols: []ColDef{
+				{Name: "id", Typ: "int(11)", Opts: []Opt{{Kind: "notnull"}}},
+				{Name: "status", Typ: "varchar(64)", Opts: []Opt{{Kind: "notnull"}, {Kind: "default", DTag: "str", Val: "n/a"}, {Kind: "comment", Val: "x"}}},
+				{Name: "n", Typ: "int(11)", Opts: []Opt{{Kind: "default", DTag: "num", Val: "0"}, {Kind: "comment", Val: "how many"}}},
+				{Name: "at", Typ: "datetime", Opts: []Opt{{Kind: "default", DTag: "now"}, {Kind: "comment", Val: "a PRIMARY KEY b"}, {Kind: "notnull"}}}}}}}
+		for i, pr := range [][2]string{{"grouped", "reversed-options"}, {"reversed-options", "grouped"}, {"reversed-options", "own-dump"}, {"per-statement", "reversed-options"}} {
+			runRoutesFixed(c, fmt.Sprintf("wrtopt%d", i), runCfg{dialect: "mysql", lower: i%2 == 0}, ows, pr[0], pr[1])
 		}
 		// postgres, an option-free schema (inside the reader's fragment): written directly and through ALTER COLUMN … TYPE
 		// within the type family (C03-h)
